@@ -34,6 +34,10 @@ def get_verifier(repo):
 def model_value(model, v):
     import z3
     from . import values as VV
+    if isinstance(v, VV.VLazy):
+        if v.cell['value'] is None:
+            return {'__unset__': True}
+        v = v.cell['value']
     if isinstance(v, VV.VInt):
         r = model.eval(v.t, model_completion=True)
         return r.as_long() if z3.is_int_value(r) else 0
@@ -65,8 +69,9 @@ def model_value(model, v):
     if isinstance(v, VV.VObj):
         cls = v.cls
         modname = getattr(getattr(cls, 'module', None), 'name', 'builtins')
+        flds = {k: model_value(model, x) for k, x in v.fields.items()}
         return {'__obj__': modname + ':' + cls.name,
-                'fields': {k: model_value(model, x) for k, x in v.fields.items()}}
+                'fields': {k: x for k, x in flds.items() if not (isinstance(x, dict) and x.get('__unset__'))}}
     if isinstance(v, VV.VConst):
         if v.kind == 'sentinel':
             return {'__repr__': 'sentinel'}
@@ -159,6 +164,9 @@ def native_call(req, timeout=3600):
         return {'__error__': 'bad output: ' + p.stdout[-1000:] + p.stderr[-1000:]}
 
 
+CLASSMAP = {}
+
+
 def native_crosscheck_parallel(repo, idents, n, seed, workers=16):
     """split contracts over processes"""
     if not idents:
@@ -168,7 +176,7 @@ def native_crosscheck_parallel(repo, idents, n, seed, workers=16):
     with mp.pool.ThreadPool(len(chunks)) as tp:
         outs = tp.map(lambda ch: native_call({'cmd': 'crosscheck', 'repo': repo,
                                               'contracts': os.path.join(VERIF_ROOT, 'contracts'),
-                                              'idents': ch, 'n': n, 'seed': seed}), chunks)
+                                              'idents': ch, 'n': n, 'seed': seed, 'classmap': CLASSMAP}), chunks)
     rep = {}
     for ch, o in zip(chunks, outs):
         if '__error__' in o:
@@ -234,7 +242,7 @@ def run_check(prop, tier, repo, seed, jobs, t0):
         return 3
     V = get_verifier(repo)
     timeout_ms = 15000 if tier == 'quick' else 60000
-    keys = [k for k, c in V.reg.contracts.items() if prop in c.props]
+    keys = [k for k, c in V.reg.contracts.items() if prop in c.props and not c.abstract]
     lemma_keys = [('lemma', n) for n in sorted(V.reg.lemmas)]
     jobs_list = [(repo, k, timeout_ms, prop in propcfg.TERMINATION_PROPS, seed) for k in keys + lemma_keys]
     if not keys and cfg.get('needs_contracts', True):
@@ -253,6 +261,9 @@ def run_check(prop, tier, repo, seed, jobs, t0):
     # ---- native cross-check (bounded stand-in; never counted as proved)
     idents_native = [r['ident'] for r in results if not r['ident'].startswith('spec/') and r['error_kind'] != 'crash'
                      and not V_contract(V, r['ident']).native.get('skip')]
+    for c in V.all_contracts():
+        if c.for_class_obj is not None:
+            CLASSMAP[c.ident] = [c.for_class_obj.module.relpath, c.for_class_obj.name]
     n = cfg.get('native_n', 400) if tier == 'quick' else cfg.get('native_n_thorough', 20000)
     native = native_crosscheck_parallel(repo, idents_native, n, seed, jobs)
     return report(prop, tier, repo, seed, t0, V, results, native, extra, cfg)
